@@ -577,6 +577,33 @@ example :
   intro h
   exact absurd (h 0) (by decide)
 
+/-- **What holds of the counters at every instant** (quiescent or not): each counter differs from its
+value in the sequential run of the logged operations by exactly what the operations in flight have
+still to send. C17's "never negative" for Redis is proved at quiescent points only
+(`Redis_quiescent_spec` with `totals_of_inv`); in between it is false of model and code alike — finding
+D26, witness below. -/
+theorem C17_redis_counters_every_instant_partial {n : Nat} {s₀ : RState} {progs : Nat → List AOp}
+    (hn : ∀ t, n ≤ t → progs t = []) {c : Config} (hr : Reach (Init s₀ progs) c) (f : Fam) (k : CKind) :
+    getC c.s.c f k = getC (seqRun s₀ (opsOf c)).c f k - owedAll c.thr f k n := by
+  have := (inv_reach hn hr).cnt f k
+  omega
+
+/-- **D26 (known finding), the witness**: a seeder's put has had its membership round trip (thread 0),
+the same peer's delete runs both of its round trips (thread 1) before the put's `INCR`: the seeder
+total is −1 at that point, and 0 again once the `INCR` has landed (the emptied swarm stays registered
+until the next expiry pass, hence the 1). Replayed on the real store by the
+fixed schedules at the head of the C04 stream (`st.redis_sched … sched=0,1,1`). -/
+theorem D26_transient_negative_witness :
+    let ih : Bytes := List.replicate 20 1
+    let p : Peer := ⟨List.replicate 20 2, 6881, [10, 0, 0, 1], .v4⟩
+    let progs : Nat → List AOp := fun t =>
+      if t = 0 then [.putSeeder ih p 5] else if t = 1 then [.deleteSeeder ih p] else []
+    let mid := run (Init {} progs) [0, 1, 1]
+    let fin := run (Init {} progs) [0, 1, 1, 0, 0]
+    (totals mid.s).2.1 = -1 ∧ (mid.thr 0).pending ≠ [] ∧
+    (∀ t, t < 2 → fin.thr t = ⟨[], []⟩) ∧ totals fin.s = (1, 0, 0) := by
+  decide
+
 /-- the D4 situation under the repaired collector: a seeder announced at 5; a pass with cutoff 6 runs
 its two groups on the swarm (thread 1) while the peer announces again at 10 (thread 2). Whether the
 re-announce lands before the removal group (first schedule: the group finds nothing to remove) or after
